@@ -162,8 +162,14 @@ def run(prop_id, tier, seed, report):
                     samples.append({"scenario": sc.name, "config": cfg, "steps": ["%s %s" % (k, r[-30:]) for k, r, _ in real_snaps]})
             finally:
                 trio.close()
+    if prop_id == "C09":
+        concurrent_instants(report, stats, seen, tier)
     return {"evaluations": stats["points"] + stats["cases"], "distinct_nontrivial": len(stats["distinct"]),
-            "rule": "scripted scenarios (new / duplicate / unreferenced content, validated and invalid stores, tag "
+            "concurrent_instants": stats.get("conc_instants", 0), "concurrent_executions": stats.get("conc_execs", 0),
+            "rule": "concurrent part: pairs of calls that publish at one permanent address (two stores of one content, two "
+                    "versions of one document, taggers of one cid, store beside delete) under every single-cut schedule of "
+                    "the controlled scheduler, the property oracle evaluated on the live directory after every mutating "
+                    "primitive of either thread; sequential part: scripted scenarios (new / duplicate / unreferenced content, validated and invalid stores, tag "
                     "with / without list / missing cid, delete of sole / shared / dangling reference with / without "
                     "metadata, metadata new / overwrite / delete one / delete all, invalid validation) x content sizes "
                     "(1 byte, one buffer, multi-buffer) x configurations; the directory is snapshotted after every "
@@ -171,6 +177,64 @@ def run(prop_id, tier, seed, report):
                     "the property oracle is evaluated on every real intermediate state; distinct = (scenario, size class)",
             "samples": samples, "traces_validated_against_impl": stats["cases"], "crash_points": stats["points"],
             "exhaustive": False}
+
+
+def concurrent_instants(report, stats, seen, tier):
+    """C09 "as seen by a concurrent reader": two calls that publish at the same permanent address run under every
+    single-cut schedule; after every mutating primitive of either thread (the other one is parked at a scheduling
+    point) the live directory must satisfy the property's oracle, and no permanent file may be written in place."""
+    from . import conc
+    from .calls import store_object, store_metadata, delete_object, delete_metadata, tag_object
+    for alg_name, (depth, width) in (("SHA-256", (3, 2)),) + ((("SHA-512", (1, 3)),) if tier == "thorough" else ()):
+        cfg = dict(depth=depth, width=width, store_alg=alg_name)
+        alg = oracle.DATAONE[alg_name]
+        contents = oracle.Contents()
+        menu = conc.Menu(contents, store_alg=alg_name)
+        big = contents.add(bytes(range(256)) * 1200)          # several copy buffers long
+        d = conc.d
+        supplied = {contents.by_tok[t] for t in contents.by_tok}
+        pairs = [
+            ("empty", [], [store_object("p1", d(menu.X)), store_object("p2", d(menu.X))]),
+            ("empty-big", [], [store_object("p1", d(big)), store_object("p2", d(big))]),
+            ("p1-bound", [store_object("p1", d(menu.X))], [store_object("p2", d(menu.X)), store_object("p3", d(menu.X))]),
+            ("p1-bound", [store_object("p1", d(menu.X))], [store_object("p2", d(menu.X)), delete_object("p1")]),
+            ("X-unreferenced", [store_object(None, d(menu.X))], [tag_object("p1", menu.cidX), tag_object("p2", menu.cidX)]),
+            ("doc-present", [store_object("p1", d(menu.X)), store_metadata("p1", d(menu.V1))],
+             [store_metadata("p1", d(menu.V2)), store_metadata("p1", d(menu.V1))]),
+            ("doc-present", [store_object("p1", d(menu.X)), store_metadata("p1", d(menu.V1))],
+             [store_metadata("p1", d(menu.V2)), delete_metadata("p1", None)]),
+        ]
+        for sn, start, calls in pairs:
+            for first in (0, 1):
+                prev = None
+                for k in range(0, 40):
+                    bad = []
+                    inplace = []
+                    n_ev = [0]
+
+                    def on_event(kind, rel, root, _bad=bad, _inplace=inplace, _n=n_ev):
+                        _n[0] += 1
+                        if kind == "copy" and rel.startswith(("objects/", "metadata/", "refs/pids/")) and "/tmp/" not in rel:
+                            _inplace.append(rel)
+                        for pr in permanent_files_ok(root, alg, supplied):
+                            _bad.append("after %s %s: %s" % (kind, rel[-40:], pr))
+                    ex = conc.execute(contents, cfg, start, calls, conc.cut_chooser(first, k), on_event=on_event)
+                    stats["conc_execs"] = stats.get("conc_execs", 0) + 1
+                    stats["conc_instants"] = stats.get("conc_instants", 0) + n_ev[0]
+                    if ex["schedule"] == prev or ex["outcome"] != "ok":
+                        break
+                    prev = ex["schedule"]
+                    probs = bad[:4] + ["a permanent file is written in place, not renamed into place: %s" % r for r in inplace[:2]]
+                    if probs:
+                        short = conc.short(calls)
+                        sig = "c09:concurrent:%s:%s:%s" % (sn, short, probs[0].split(": ", 1)[-1][:50])
+                        if sig not in seen:
+                            seen.add(sig)
+                            report.findings.append(Finding("C09", sig, "%s, %s, schedule %s: %s" % (
+                                sn, short, ".".join(map(str, ex["schedule"])), "; ".join(probs[:2])),
+                                {"property": "C09", "kind": "concurrent-instants", "config": cfg, "contents": contents.to_json(),
+                                 "start": seq.history_json(start), "calls": seq.history_json(calls),
+                                 "schedule": ex["schedule"], "trace": ex["trace"][:80], "problems": probs[:6]}))
 
 
 def crash_recovery(trio, sc, snap_dir, k, contents, cfg, pre_abs, pid_prefixes, alg):
